@@ -2,6 +2,7 @@ package lucene
 
 import (
 	"fmt"
+	"math"
 	"reflect"
 	"strconv"
 	"strings"
@@ -237,9 +238,9 @@ func parseLiteral(token lex.Token) (e any, err error) {
 		return expr.Lit(ival), nil
 	}
 
-	// attempt to parse it as a float
+	// attempt to parse it as a float. NaN and Inf are not numbers we can render so they stay strings
 	fval, err := strconv.ParseFloat(token.Val, 64)
-	if err == nil {
+	if err == nil && !math.IsNaN(fval) && !math.IsInf(fval, 0) {
 		return expr.Lit(fval), nil
 	}
 
